@@ -423,6 +423,43 @@ def rule_P_CALLER(ctx):
     ctx.floor("form_* call sites", n, 3)
 
 
+def _callers(f, path):
+    if not hasattr(f, "_callers_idx"):
+        idx = {}
+        for q, qb in f.mir.items():
+            qg = mir.cfg(qb)
+            for ci, ct in qg.calls():
+                cp = mir.callee_path(ct)
+                if cp:
+                    idx.setdefault(cp, []).append((q, qb, qg, ci, ct))
+        f._callers_idx = idx
+    return f._callers_idx.get(path, [])
+
+
+def _arg_validated(f, p, b, g, bi, a, depth):
+    """operand `a` at block `bi` of body `b` is known to be in [0,1]: (a) is_in_01 succeeded on it on a dominating edge, (b) it is the
+    Continue payload of try_validate_01(..)?, or (c) it is a parameter of a non-public function and EVERY call of that function in the
+    crate passes a validated value (a private helper that only forwards: the obligation moves to its callers; depth <= 3)"""
+    want = g.path_s(a)
+    r, pth = g.resolve_operand(a)
+    cur = r
+    if cur[0] == "call" and mir.callee_name(cur[1]) == "branch":
+        inner = g.resolve_operand(cur[1]["args"][0])[0]
+        if inner[0] == "call" and mir.callee_name(inner[1]) == "try_validate_01":
+            return True
+    for ci, ct in g.calls("is_in_01"):
+        if g.path_s(ct["args"][0]) != want:
+            continue
+        br = g.bool_branch(ci)
+        if br and (br[0] == bi or g.dominates(br[0], bi)):
+            return True
+    if r[0] == "arg" and not pth and depth < 3 and "Public" not in str(b.get("vis")):
+        cs = _callers(f, p)
+        if cs and all(len(ct["args"]) >= r[1] and _arg_validated(f, q, qb, qg, ci, ct["args"][r[1] - 1], depth + 1) for q, qb, qg, ci, ct in cs):
+            return True
+    return False
+
+
 def rule_P_VALID(ctx, reach, floor=6):
     ctx.rule("P-VALID", "every f64 argument of a panicking Truth/Budget::new_* call flows from a value on which is_in_01 succeeded on a "
              "dominating edge, or is the Continue payload of try_validate_01(..)?")
@@ -442,24 +479,7 @@ def rule_P_VALID(ctx, reach, floor=6):
             for ai, a in enumerate(t["args"]):
                 n += 1
                 want = g.path_s(a)
-                ok = False
-                # (b) payload of try_validate_01(..)?
-                r, pth = g.resolve_operand(a)
-                cur = r
-                for _ in range(4):
-                    if cur[0] == "call" and mir.callee_name(cur[1]) == "branch":
-                        inner = g.resolve_operand(cur[1]["args"][0])[0]
-                        if inner[0] == "call" and mir.callee_name(inner[1]) == "try_validate_01":
-                            ok = True
-                        break
-                    break
-                if not ok:
-                    for ci, ct in g.calls("is_in_01"):
-                        if g.path_s(ct["args"][0]) != want:
-                            continue
-                        br = g.bool_branch(ci)
-                        if br and (br[0] == bi or g.dominates(br[0], bi)):
-                            ok = True
+                ok = _arg_validated(f, p, b, g, bi, a, 0)
                 ctx.ob("P-VALID", "%s -> %s arg %d" % (fname(b, p), cal.rsplit("::", 2)[-2] + "::" + cal.rsplit("::", 1)[-1], ai), ok,
                        "argument %s is not range-checked on a dominating edge" % want, "%s:%s" % (b["span"]["file"], t["line"]))
     ctx.floor("validated constructor arguments", n, floor)
